@@ -37,11 +37,19 @@ func NumCPU() int {
 // override when one is set (a process restricted to k CPUs normally runs with GOMAXPROCS = k); a setting
 // call is passed through.
 func GoMaxProcs(n int) int {
+	if n < 1 && goMaxProcsOverride > 0 {
+		return goMaxProcsOverride
+	}
 	if n < 1 && numCPUOverride > 0 {
 		return numCPUOverride
 	}
 	return runtime.GOMAXPROCS(n)
 }
+
+var goMaxProcsOverride int
+
+// SetGoMaxProcs overrides what a GOMAXPROCS query sees independently of the CPU count (0 = follow SetNumCPU).
+func SetGoMaxProcs(n int) { goMaxProcsOverride = n }
 
 // Instrumented reports that the concurrency rewrite is compiled in (the harness uses it to tell the
 // scheduled flavour from the exports-only fallback flavour).
